@@ -588,7 +588,12 @@ def r02_10(ctx):
         pos = [k for k, v in g.items() if v and re.search(r"\.local matches (atom:[\w-]+\|?)+$", re.sub(r"#\d+$", "", k))]
         html_ns = [v for k, v in g.items() if "matches ExpandedName{ns:atom:http://www.w3.org/1999/xhtml,local:_}" in k]
         last = [v for k, v in g.items() if re.fullmatch(r"item\.0 matches 0(#\d+)?", k)]
-        is_last = any(last)
+        # the context element is looked at only for the first node of the stack: a path that took it is a 'last' path whether or
+        # not it asks the flag again
+        via_context = any(v for k, v in g.items() if "(item.0 == 0)" in k and "self.context_elem" in k and "matches (true,Some(_))" in k)
+        if via_context and last and not all(last):
+            continue  # infeasible: the context element was taken (first node) and the same index is found not to be 0
+        is_last = any(last) or via_context
         names = set()
         for k in pos:
             names |= set(re.findall(r"atom:([\w-]+)", k.split(" matches ", 1)[1]))
